@@ -7,7 +7,7 @@ import sys
 
 from harness.common import COQ, BUILD
 from harness import interp_driver as ID
-from harness.props.c02 import gen_interp_case, program_coq, ticks_coq, view_coq
+from harness.interp_common import gen_interp_case, program_coq, ticks_coq, view_coq
 from harness.common import lst
 
 
